@@ -126,7 +126,7 @@ def f16b_partial_existence(case, obs):
     if read_changes(case, obs):
         return False
     bad = opt_changes(case, obs)
-    if not bad or any(has_subtraction(p) for (p, _d) in bad):
+    if not bad:
         return False
     return all(ec.optional_probe(doc, p, d)["lacking"] for (p, d) in bad)
 
